@@ -122,8 +122,14 @@ func runGlobalMapAlias(c *Ctx, rule string) {
 				if !ok || g.Pkg != sp {
 					continue
 				}
-				if _, isMap := ld.Type().Underlying().(*types.Map); !isMap {
+				_, isMap := ld.Type().Underlying().(*types.Map)
+				_, isSlice := ld.Type().Underlying().(*types.Slice)
+				if !isMap && !isSlice {
 					continue
+				}
+				what := "map"
+				if isSlice {
+					what = "slice"
 				}
 				n++
 				c.Sites++
@@ -143,14 +149,19 @@ func runGlobalMapAlias(c *Ctx, rule string) {
 							walk(x, d+1)
 						case *ssa.MakeInterface:
 							walk(x, d+1)
+						case *ssa.Slice:
+							if x.X == v {
+								walk(x, d+1) // a re-slice shares the backing array
+							}
 						case *ssa.Store:
 							if x.Val == v {
-								if _, toGlobal := x.Addr.(*ssa.Global); !toGlobal {
-									bad = append(bad, fnName(fn)+" stores the package-level map "+g.Name()+" itself (not a copy) into "+strings.TrimPrefix(x.Addr.String(), "&")+" at "+p.Pos(x.Pos())+": an update through that reference writes the global table, visible to every later and concurrent call")
+								_, toField := x.Addr.(*ssa.FieldAddr)
+								if _, toGlobal := x.Addr.(*ssa.Global); !toGlobal && (isMap || toField) {
+									bad = append(bad, fnName(fn)+" stores the package-level "+what+" "+g.Name()+" itself (not a copy) into "+strings.TrimPrefix(x.Addr.String(), "&")+" at "+p.Pos(x.Pos())+": an update through that reference writes the global table, visible to every later and concurrent call")
 								}
 							}
 						case *ssa.Return:
-							if !strings.HasPrefix(fn.Name(), "Get") { // read-only accessors are the caller's business
+							if !strings.HasPrefix(fn.Name(), "Get") && isMap { // read-only accessors are the caller's business
 								bad = append(bad, fnName(fn)+" returns the package-level map "+g.Name()+" itself at "+p.Pos(x.Pos()))
 							}
 						}
@@ -160,5 +171,5 @@ func runGlobalMapAlias(c *Ctx, rule string) {
 			}
 		}
 	}
-	c.Check(len(bad) == 0, rule, "valid", "global-map-alias", token.NoPos, fmt.Sprintf("%d loads of package-level maps, none stored into an object or returned", n), uniqJoin(bad, 3))
+	c.Check(len(bad) == 0, rule, "valid", "global-map-alias", token.NoPos, fmt.Sprintf("%d loads of package-level maps/slices, none stored into an object (maps: nor returned)", n), uniqJoin(bad, 3))
 }
